@@ -151,7 +151,7 @@ struct RunOut {
     deadlock: bool,
 }
 
-const STEP_TIMEOUT: Duration = Duration::from_secs(5);
+const STEP_TIMEOUT: Duration = Duration::from_secs(60);
 
 /// replay one schedule; `sched` may contain disabled/finished thread ids (skipped, printed "-")
 fn run_case(case: &Case, sched: &[usize], root: &PathBuf) -> RunOut {
